@@ -39,6 +39,12 @@ pub mod runtime_violation {
 
 #[path = "real/lazy_bigint.rs"]
 pub mod lazy_bigint;
+#[path = "real/trysort.rs"]
+pub mod trysort;
+#[path = "real/try_heap.rs"]
+pub mod try_heap;
+#[path = "real/fenced_string.rs"]
+pub mod fenced_string;
 // MODULES-LATER
 #[cfg(kani)]
 mod h;
